@@ -188,6 +188,9 @@ func VP_KeyMatch(key, prefix string) (bool, string) { return configKeyMatchesPre
 // corresponding option. git's side is modelled: `git config --get --bool`
 // prints the canonical true/false, `--get --int` the canonical decimal (with
 // k/m/g suffixes expanded), plain `--get` the raw value; exit status 1 = unset.
+// vpModelKey is the key the scripted gitconfig holds (as the user wrote it).
+var vpModelKey = "sizer.x"
+
 func vpGitConfigModel(raw string, unset bool, valueless bool) {
 	var last []string
 	vp_Stub("(*github.com/github/git-sizer/git.Repository).GitCommand", func(r *Repository, args ...string) *exec.Cmd {
@@ -195,6 +198,18 @@ func vpGitConfigModel(raw string, unset bool, valueless bool) {
 		return &exec.Cmd{}
 	})
 	vp_Stub("(*os/exec.Cmd).Output", func(c *exec.Cmd) ([]byte, error) {
+		if len(last) >= 2 && last[0] == "config" && (last[1] == "--list" || last[1] == "-l" || last[1] == "-z") {
+			// the listing prints canonical keys: section and variable name in lower case
+			listing := "core.bare\nfalse\x00"
+			if !unset {
+				listing += strings.ToLower(vpModelKey)
+				if !valueless {
+					listing += "\n" + raw
+				}
+				listing += "\x00"
+			}
+			return []byte(listing), nil
+		}
 		if len(last) < 3 || last[0] != "config" || last[1] != "--get" {
 			vp_Inconclusive("a git config command with no modelled answer: " + strings.Join(last, " "))
 		}
@@ -251,8 +266,17 @@ func VPH_configDefaults() {
 		if i < len(spell) {
 			raw = spell[i]
 		}
+		vpModelKey = "sizer.progress"
 		vpGitConfigModel(raw, unset, valueless)
 		def := vp_Choice("default", 2) == 1
+		if i < len(spell) && vp_Choice("invalid", 2) == 1 {
+			// a value git refuses to read as a boolean (exit status 128): the same as an invalid option value
+			vpGitConfigModel("maybe", false, false)
+			_, err := repo.ConfigBoolDefault("sizer.progress", def)
+			vp_Assert(err != nil, "a value git rejects for the type is an error, not the default")
+			vp_Reach("bool")
+			return
+		}
 		got, err := repo.ConfigBoolDefault("sizer.progress", def)
 		vp_Assert(err == nil, "every boolean spelling git accepts is accepted")
 		want := def
@@ -269,7 +293,15 @@ func VPH_configDefaults() {
 		if !unset {
 			raw = raws[i]
 		}
+		vpModelKey = "sizer.jsonVersion"
 		vpGitConfigModel(raw, unset, false)
+		if !unset && vp_Choice("invalid", 2) == 1 {
+			vpGitConfigModel("two", false, false)
+			_, err := repo.ConfigIntDefault("sizer.jsonVersion", 7)
+			vp_Assert(err != nil, "a value git rejects for the type is an error, not the default")
+			vp_Reach("int")
+			return
+		}
 		got, err := repo.ConfigIntDefault("sizer.jsonVersion", 7)
 		vp_Assert(err == nil, "every integer spelling git accepts is accepted")
 		want := 7
@@ -286,6 +318,7 @@ func VPH_configDefaults() {
 		if !unset {
 			raw = raws[i]
 		}
+		vpModelKey = "sizer.names"
 		vpGitConfigModel(raw, unset, false)
 		got, err := repo.ConfigStringDefault("sizer.names", "dflt")
 		vp_Assert(err == nil, "string settings are read")
